@@ -18,6 +18,7 @@ PROPERTY FrameOther
 PROPERTY AppendOnly
 PROPERTY StartPreserves
 PROPERTY CondRespected
+PROPERTY CondRespectedMembers
 CONSTRAINT StateConstraint
 VIEW View
 CHECK_DEADLOCK FALSE
